@@ -29,6 +29,7 @@ import (
 	"github.com/jdillenkofer/pithos/internal/storage/metadatapart/metadatastore"
 	sqlMetadataStore "github.com/jdillenkofer/pithos/internal/storage/metadatapart/metadatastore/sql"
 	"github.com/jdillenkofer/pithos/internal/storage/metadatapart/partstore"
+	"github.com/jdillenkofer/pithos/verifharness/inject"
 	cachePartStore "github.com/jdillenkofer/pithos/internal/storage/metadatapart/partstore/cache"
 	filesystemPartStore "github.com/jdillenkofer/pithos/internal/storage/metadatapart/partstore/filesystem"
 	"github.com/jdillenkofer/pithos/internal/storage/metadatapart/partstore/middlewares/compression"
@@ -170,6 +171,9 @@ type Options struct {
 	OutboxLease time.Duration
 	// TinkPassword (default "verif-password").
 	TinkPassword string
+	// Inject wraps every base store with inject.Wrap and opens the database through
+	// the fault-injecting sql driver (H2 hook).
+	Inject bool
 	// GCGrace / GCInterval for metadatapart (0 = pithos defaults).
 	GCGrace    time.Duration
 	GCInterval time.Duration
@@ -252,6 +256,9 @@ func (b *Builder) base(kind, name string) (partstore.PartStore, error) {
 	}
 	if err != nil {
 		return nil, err
+	}
+	if b.Opts.Inject {
+		ps = inject.Wrap(name, ps)
 	}
 	if b.Opts.WrapBase != nil {
 		ps = b.Opts.WrapBase(name, ps)
@@ -438,7 +445,14 @@ func Open(dir string, layout Layout, opts Options) (*Instance, error) {
 	if err := os.MkdirAll(dir, 0o755); err != nil {
 		return nil, err
 	}
-	db, err := OpenDB(dir)
+	var db database.Database
+	var err error
+	if opts.Inject {
+		inject.Register()
+		db, err = sqlite.VerifOpenDatabaseWithDriver(filepath.Join(dir, "pithos.db"), inject.DriverName)
+	} else {
+		db, err = OpenDB(dir)
+	}
 	if err != nil {
 		return nil, err
 	}
